@@ -1626,7 +1626,11 @@ impl VectorEngine {
         {
             let cache = self.hnsw_cache.read();
             if let Some((index, mapping)) = cache.get(collection) {
-                if !mapping.is_empty() {
+                // The index only answers queries of the dimension it was built from;
+                // anything else is left to the exhaustive path, which skips vectors
+                // of another dimension.
+                let same_dim = index.get_vector(0).is_some_and(|v| v.len() == query.len());
+                if !mapping.is_empty() && same_dim {
                     let neighbors = index.search(query, top_k);
                     let mut results: Vec<SearchResult> = neighbors
                         .into_iter()
@@ -1980,7 +1984,11 @@ impl VectorEngine {
         {
             let cache = self.hnsw_cache.read();
             if let Some((index, mapping)) = cache.get("_default") {
-                if !mapping.is_empty() {
+                // The index only answers queries of the dimension it was built from;
+                // anything else is left to the exhaustive path, which skips vectors
+                // of another dimension.
+                let same_dim = index.get_vector(0).is_some_and(|v| v.len() == query.len());
+                if !mapping.is_empty() && same_dim {
                     let neighbors = index.search(query, top_k);
                     let prefix = Self::embedding_prefix();
                     let mut results: Vec<SearchResult> = neighbors
